@@ -25,7 +25,8 @@ func init() {
 			"R7 WireError.Is answers true only under equality of the two codes, httpError.Is only for status 416 and ErrRangeInvalid. " +
 			"R6b httpError.Error writes its `<status> <status text>` prefix on every path (no status-dependent variant). " +
 			"R5b the client reads an error body up to a constant limit; R8 a response returned by the auth transport has not had its Body closed by it. " +
-			"R2 covers multi-valued case arms of the HEAD fallback; R6c the prefix built by the shared helper is used as built (nothing trims or re-slices it between the helper and the separator).",
+			"R2 covers multi-valued case arms of the HEAD fallback; R6c the prefix built by the shared helper is used as built (nothing trims or re-slices it between the helper and the separator). " +
+			"R5c the too-large test on an error body is the complement of \"fewer bytes than the reader's limit were read\" (len(data) > R-1 or >= R for io.LimitReader(body, R)).",
 		NotDecided: "the message fixed point as a string fact for arbitrary message texts, and preservation of detail JSON bytes, are not decided.",
 		Technique:  "static analysis: table extraction from the package initialiser, format-verb/provenance analysis of fmt.Errorf arguments, SSA dominance",
 	})
@@ -229,6 +230,7 @@ func runC07(c *core.Ctx) {
 	prefixBuiltOnEveryPath(c, "C07.R6")
 	prefixUsedAsBuilt(c, "C07.R6")
 	errorBodyLimitIsConstant(c, "C07.R5")
+	errorBodyTooLargeTestMatchesRead(c, "C07.R5")
 	returnedResponseBodyOpen(c, "C07.R8")
 	c07Is(c)
 }
